@@ -49,6 +49,8 @@ class Engine(EngineBase):
             "chunk": rng.choice(["none", "split2", "small"]),
             "listing": rng.choice(["shuffle", "sorted", "reverse"]),
             "clock": rng.choice(["inc", "coarse"]),
+            # shutil.rmtree walks by path or (as CPython does on Linux) by directory descriptors
+            "fd_rmtree": rng.random() < 0.5,
         }
         njobs = rng.randrange(1, 4)
         jobs = []
